@@ -19,7 +19,7 @@ fn main() {
             "inst" | "bmca" | "port" | "fml" | "c07" | "master" | "view" | "tlv" | "timed" => Box::new(streams::inst::InstExec::new()),
             "cmp" => Box::new(streams::gen_bmca::CmpExec),
             "ovl" => Box::new(streams::ovl::OvlExec::default()),
-            "filt" => Box::new(streams::filt::FiltExec::default()),
+            "filt" | "loop" => Box::new(streams::filt::FiltExec::default()),
             _ => panic!("unknown stream"),
         };
         for line in std::io::BufReader::new(file).lines() {
@@ -67,6 +67,7 @@ fn main() {
         "threads" => streams::threads::generate(&mut out, &rng, thorough),
         "ovl" => streams::ovl::generate(&mut out, &rng, thorough),
         "filt" => streams::gen_filt::generate(&mut out, &rng, thorough),
+        "loop" => streams::gen_loop::generate(&mut out, &rng, thorough),
         "cmp" => streams::gen_bmca::generate_cmp(&mut out, &rng, thorough),
         "fml" => streams::gen_fml::generate(&mut out, &rng, thorough),
         "c07" => streams::gen_c07::generate(&mut out, &rng, thorough, &dir),
